@@ -83,17 +83,21 @@ func concDrain(args []string, out *bufio.Writer) {
 			var ds uint32
 			var wb uint64
 			var free bool
-			for t := 0; t < 200; t++ {
+			// (a stranded state never settles, so waiting long costs nothing on correct code and keeps a loaded machine, on
+			// which the cache's own goroutines may not be scheduled for a while, from looking like a lost wake-up)
+			deadline := time.Now().Add(1500 * time.Millisecond)
+			for t := 0; ; t++ {
 				time.Sleep(50 * time.Microsecond)
 				ds, wb, free = otter.VerifDrainState(c)
 				if ds == 0 && wb == 0 && free && atomicEv.Load() == delEv.Load() {
 					break
 				}
-			}
-			// settle a little longer before judging a stranded state
-			if !(ds == 0 && wb == 0 && free) {
-				time.Sleep(20 * time.Millisecond)
-				ds, wb, free = otter.VerifDrainState(c)
+				if t >= 200 && time.Now().After(deadline) {
+					break
+				}
+				if t >= 200 {
+					time.Sleep(time.Millisecond)
+				}
 			}
 			size := c.EstimatedSize() // hash-table counter only: not a maintenance trigger
 			fmt.Fprintf(out, "quiescent round=%d writers=%d others=%d ds=%d wb=%d lockfree=%v atomic=%d delivered=%d size=%d max=%d\n",
